@@ -124,6 +124,14 @@ FLOORS = {
         "B2": 1,
         "B3": 4,
         "B4": 1
+    },
+    "C06": {
+        "K1": 1,
+        "K2": 2,
+        "K3": 1,
+        "K4": 1,
+        "I10": 1,
+        "I11": 2
     }
 }
 
@@ -454,6 +462,8 @@ def c20(prog, rep):
     CR.rule_scan_abandon(prog, rep)
     CR.rule_argflag_shift(prog, rep)
     CR.rule_lineno_reset(prog, rep)
+    CR.rule_number_classifier_closed(prog, rep)
+    CR.rule_expansion_untouched(prog, rep)
     rep.explanation = (
         'Narrow structural clauses of the Apache-style parser (qaconf.c): B1 the literal set the boolean classifier compares against '
         '(case-insensitively) contains all eight documented spellings and maps the two polarities and "not a boolean" to three '
@@ -526,6 +536,29 @@ def c09(prog, rep):
     rep.assumptions += ['sequence behaviour over histories is not decided']
 
 
+def c06(prog, rep):
+    from . import harrmap as HM, hasharr as HA
+    HM.rule_k1(prog, rep)
+    HM.rule_k2(prog, rep)
+    HM.rule_k3(prog, rep)
+    HM.rule_k4(prog, rep)
+    HA.rule_i10(prog, rep)
+    HA.rule_i11(prog, rep)
+    rep.explanation = (
+        'Structural clauses of "exact bounded map with exact space accounting" in qhasharr.c; the map behaviour over histories, the '
+        'fit boundary and the placement branch taken depend on the runtime occupancy pattern and are not decided. K1: every chunk-loop '
+        'iteration of the writer that copies payload into a slot passes exactly one usedslots++ (path counting from the copy to the '
+        'loop head), num++ only on the leading-slot arm and at most once per iteration. K2: in the releaser each remove_slot() is '
+        'followed by exactly one usedslots-- before the next release/exit and num-- is passed exactly once on every path. K3: after '
+        'the writer stored the entry\'s count through its index parameter, no failing return is reachable without remove_data() on that '
+        'index (a failed put is never left partially written). K4: the lookup returns an index only on paths on which the length test, '
+        'the stored-key memcmp and - unless the key is known to fit the slot - the digest memcmp succeeded (fact sets over CFG paths, '
+        'dropped at each new candidate slot). I10: the digest is consulted only for key sizes for which the writer computed it. I11: '
+        'every release of an entry goes with the chain-counter bookkeeping.')
+    rep.assumptions += ['map behaviour over operation histories, the out-of-space boundary and the three-way placement are not decided',
+                        'slot indexes coming from stored link/hash fields are assumed in range (image invariant; I12 under C07/C11 covers ring walks)']
+
+
 PARSER_UNITS = ['src/utilities/qencode.c', 'src/internal/qinternal.c', 'src/extensions/qaconf.c', 'src/extensions/qconfig.c',
                 'src/utilities/qstring.c', 'src/containers/qlisttbl.c']
 
@@ -544,6 +577,9 @@ def c17(prog, rep):
     LP.rule_lp1(prog, rep, PARSER_UNITS)
     LP.rule_lp2(prog, rep, PARSER_UNITS)
     LP.rule_lp3(prog, rep, PARSER_UNITS)
+    LP.rule_lp4(prog, rep, PARSER_UNITS)
+    from . import strrules as SR
+    SR.rule_bytetable_index(prog, rep, ['src/utilities/qencode.c', 'src/internal/qinternal.c', 'src/extensions/qaconf.c', 'src/extensions/qconfig.c'])
     from . import configrules as CR
     clf = CR.find_bool_classifier(prog)
     rep.rule('CU5', 'the word classifier whose acceptance lets the parser overwrite the word in place ("1"/"0") compares whole words '
@@ -583,6 +619,8 @@ def c19(prog, rep):
     SR.rule_snprintf_fit(prog, rep, ['src/utilities/qstring.c'])
     from . import bufrules as BW
     BW.rule_fmt_complete(prog, rep, ['src/utilities/qstring.c'])
+    SR.rule_overwrite_step(prog, rep, ['src/utilities/qstring.c'])
+    SR.rule_no_store_before_move(prog, rep)
     rep.explanation = (
         'Q1: for the size-parameterised routines of qstring.c (qstrcpy, qstrncpy, qstrgets - found by their `char *dst, size_t size` '
         'signature) every write into the destination is bounded: block copies and indexed stores need the must-fact len < size '
@@ -609,6 +647,7 @@ PROPS = {
     'C01': dict(fn=c01, level='other'),
     'C04': dict(fn=c04, level='other'),
     'C07': dict(fn=c07, level='other'),
+    'C06': dict(fn=c06, level='other'),
     'C16': dict(fn=c16, level='other'),
     'C11': dict(fn=c11, level='other'),
     'C12': dict(fn=c12, level='other'),
